@@ -7,7 +7,7 @@ NSS = ('iso', 'joliet', 'udf')
 
 
 class Node:
-    __slots__ = ('kind', 'children', 'blob', 'hidden', 'rr', 'target', 'mode', 'noinode', 'uid', 'gen')
+    __slots__ = ('kind', 'children', 'blob', 'hidden', 'rr', 'target', 'mode', 'noinode', 'uid', 'gen', 'reloc')
 
     def __init__(self, kind, uid, blob=None, rr=None, target=None, mode=None, noinode=False, gen=0):
         self.kind = kind              # 'dir' | 'file' | 'symlink'
@@ -20,6 +20,7 @@ class Node:
         self.noinode = noinode        # record without data identity (UDF-symlink companion)
         self.uid = uid
         self.gen = gen                # generation in which the node was created
+        self.reloc = None             # Rock Ridge relocation: identifier the directory got under the relocation directory
 
 
 class Blob:
@@ -229,7 +230,18 @@ class Model:
                 mode = None
                 if ns == 'iso' and self.rr:
                     mode = op['mode'] if op.get('mode') is not None else 0o040555
-                self._insert(ns, p, self._node('dir', rr=op.get('rr') if ns == 'iso' else None, mode=mode))
+                node = self._node('dir', rr=op.get('rr') if ns == 'iso' else None, mode=mode)
+                self._insert(ns, p, node)
+                if ns == 'iso' and self.relocates(p):
+                    # Rock Ridge deep-directory relocation: the directory physically lives in the relocation directory,
+                    # a placeholder record stays where the user put it (RRIP 4.1.5)
+                    name = split(p)[1]
+                    taken = {n.reloc for _, n in self.iter_ns('iso') if n.reloc and n is not node}
+                    phys, idx = name, 0
+                    while phys in taken:
+                        phys = name + '%03d' % idx
+                        idx += 1
+                    node.reloc = phys
 
     def op_rm_file(self, op):
         node = self.get(op['ns'], op['path'])
@@ -376,15 +388,62 @@ class Model:
             return ('tiny', _c.blob_bytes(b.id, b.length).hex())
         return ('blob', node.blob)
 
+    def relocates(self, iso_path):
+        """Does a directory added under this (logical) ISO9660 path get relocated?"""
+        return bool(self.rr) and self.cfg['level'] != 4 and self.depth(iso_path) % 8 == 0 and self.depth(iso_path) > 0
+
+    RR_MOVED = ('RR_MOVED', 'rr_moved')
+
+    def phys(self, ns, path):
+        """Where an independent reader of namespace ns finds the entry the user calls `path`: the same path, except below a
+        relocated directory in the ISO9660 namespace (that subtree lives in the relocation directory)."""
+        if ns != 'iso' or path == '/':
+            return path
+        node = self.roots['iso']
+        out = ''
+        for comp in path.split('/')[1:]:
+            node = node.children.get(comp) if node is not None and node.kind == 'dir' else None
+            if node is not None and node.kind == 'dir' and node.reloc:
+                out = '/' + (self.rr_moved_name[0] if self.rr_moved_name else self.RR_MOVED[0]) + '/' + node.reloc
+            else:
+                out += '/' + comp
+        return out
+
+    @property
+    def rr_moved(self):
+        """The relocation directory exists while it holds a relocated directory (it goes away with the last one)."""
+        return any(n.reloc for _, n in self.iter_ns('iso'))
+
     def view(self):
         """What every namespace must show: path -> tuple."""
         out = {}
         v = {'/': ('dir', False, None)}
-        for p, n in self.iter_ns('iso'):
-            v[p] = ('dir' if n.kind == 'dir' else 'file', n.hidden, self.content_key(n))
+        if not self.rr_moved:
+            for p, n in self.iter_ns('iso'):
+                v[p] = ('dir' if n.kind == 'dir' else 'file', n.hidden, self.content_key(n))
+        else:
+            # the ISO9660 namespace shows the physical layout: relocated directories under the relocation directory,
+            # a placeholder (a non-directory record) where the user put them
+            mv = '/' + (self.rr_moved_name[0] if self.rr_moved_name else self.RR_MOVED[0])
+            v[mv] = ('dir', False, None)
+            stack = [('/', self.roots['iso'])]
+            while stack:
+                pp, n = stack.pop()
+                for nm in sorted(n.children):
+                    ch = n.children[nm]
+                    if ch.kind == 'dir' and ch.reloc:
+                        v[join(pp, nm)] = ('file', ch.hidden, ('reloc',))
+                        cp = join(mv, ch.reloc)
+                    else:
+                        cp = join(pp, nm)
+                    v[cp] = ('dir' if ch.kind == 'dir' else 'file', ch.hidden, self.content_key(ch))
+                    if ch.kind == 'dir':
+                        stack.append((cp, ch))
         out['iso'] = v
         if self.rr:
             v = {'/': ('dir', None, None, None)}
+            if self.rr_moved:
+                v['/' + (self.rr_moved_name[1] if self.rr_moved_name else self.RR_MOVED[1])] = ('dir', None, None, None)
             stack = [('/', self.roots['iso'])]
             while stack:
                 p, n = stack.pop()
